@@ -188,6 +188,8 @@ def classify(v):
             s = ("r" if k == "f" else "c") + str(v.ndim)
             if v.dtype not in (onp.dtype("float64"), onp.dtype("complex128")):
                 s += ":" + v.dtype.name
+            if v.ndim >= 2 and v.shape[-1] != v.shape[-2]:
+                s += "n"  # last two dimensions differ (non-square)
             if v.ndim and 1 in v.shape:
                 s += "o"
             if v.size == 0:
@@ -418,6 +420,8 @@ def eval_fwd(case_dec, rng, K=2, check_values=True):
         if not values_equal_nan(yA, y0):
             extra["primal_mismatch"] = 1
         d = _struct_check(y0, t)
+        if d == "wrong_dtype" and _reduced(x0):
+            d = None  # the dtype clause is stated for default-precision values only
         if d:
             return Outcome("violation", symptom=d, detail="output %s tangent %s" % (sdesc(y0), sdesc(t)), extra=extra)
         if not check_values or _reduced(y0) or _reduced(x0):
